@@ -24,8 +24,41 @@ VAL = {
     "sa": {"k": [1, 2.5, "ü\U0001f600", None, True], "n": -0.0},
     "mf": ["multi\nline", {"a": {"b": []}}, 2 ** 53 + 1],
     "x": 7, "y": "why", "z": [0, False, ""],
-    "xf": "extracted",
+    "e0": "from E0", "e1": ["from", "E1"], "e2": {"from": "E2"},
 }
+RESERVED_COLLISIONS = {"timestamp": "not-a-float", "task_level": "bogus", "task_uuid": 5}
+
+
+class _BadStrObj(object):
+    def __str__(self):
+        raise RuntimeError("no str")
+
+    def __repr__(self):
+        raise RuntimeError("no repr")
+
+
+class _BadReprOnly(object):
+    def __repr__(self):
+        raise ValueError("no repr")
+
+
+def _deep(n):
+    x = []
+    for _ in range(n):
+        x = [x]
+    return x
+
+
+def _selfref():
+    x = []
+    x.append(x)
+    return x
+
+
+HOSTILE = [lambda: _BadStrObj(), lambda: {1: "int key", (2, 3): "tuple key"}, lambda: 2 ** 70, lambda: float("nan"),
+           lambda: b"\xff\xfebytes", lambda: "lone \ud800 surrogate", lambda: object(), lambda: _deep(3000),
+           lambda: _selfref(), lambda: {"k": _BadReprOnly()}, lambda: float("inf"), lambda: {"s": {1, 2}},
+           lambda: {"nested": [_BadStrObj()]}, lambda: -(2 ** 64), lambda: lambda z: z]
 
 
 class _Abort(BaseException):
@@ -42,20 +75,19 @@ class BadStr(Exception):
         raise RuntimeError("str() of this exception raises")
 
 
-class FarBase(Exception):
-    pass
+class FalsyExc(Exception):
+    """An exception object that is false in a boolean context (e.g. an aggregate error with no sub-errors)."""
+
+    def __bool__(self):
+        return False
 
 
-class ExtBase(FarBase):
-    pass
+class EmptyLenExc(KeyboardInterrupt):
+    def __len__(self):
+        return 0
 
 
-class ExtSub(ExtBase):
-    pass
-
-
-class ExtExact(Exception):
-    pass
+NoModuleExc = type("NoModuleExc", (Exception,), {"__module__": None})
 
 
 class ExtRaise(Exception):
@@ -79,16 +111,13 @@ def _raising_extractor(e):
     raise ZeroDivisionError("extractor failed")
 
 
-register_exception_extractor(FarBase, lambda e: {"far": 1})
-register_exception_extractor(ExtBase, lambda e: {"xf": VAL["xf"]})
-register_exception_extractor(ExtExact, lambda e: {"xf": VAL["xf"]})
 register_exception_extractor(ExtRaise, _raising_extractor)
 
 EXC_WITNESSES = [lambda: ValueError("boom"), lambda: KeyboardInterrupt(), lambda: GeneratorExit(),
                  lambda: asyncio.CancelledError(), lambda: BadStr(), lambda: SystemExit(3),
-                 lambda: KeyError("k")]
-EXT_WITNESSES = [lambda: ExtExact("exact"), lambda: ExtSub("via base")]
-DEST_ERRS = [lambda: DestErr("dest down"), lambda: OSError(5, "io"), lambda: DestErrBadStr(), lambda: TypeError("t")]
+                 lambda: KeyError("k"), lambda: FalsyExc("falsy"), lambda: EmptyLenExc(), lambda: NoModuleExc("nomod")]
+DEST_ERRS = [lambda: DestErr("dest down"), lambda: DestErrBadStr(), lambda: TypeError("t"),
+             lambda: NoModuleExc("nomod"), lambda: FalsyExc("f"), lambda: BadStr()]
 
 
 class Env:
@@ -117,9 +146,18 @@ class Env:
         self.done = queue.Queue()
         self.runners = {}
         self.error = None
+        self.abort = False
+        self.abort_exc = None
         # typed action / message types with harness-owned serializers
+        # a fresh chain E2 < E1 < E0 < Exception per program (the extractor registry is process-global)
+        self.E0 = type("E0", (Exception,), {})
+        self.E1 = type("E1", (self.E0,), {})
+        self.E2 = type("E2", (self.E1,), {})
+        self.hostile_n = self.wit
         self.T = ActionType("T", [Field("x", self.serializer, "x")], [Field("y", self.serializer, "y")], "typed action")
         self.M = MessageType("M", [Field("x", self.serializer, "x")], "typed message")
+        from eliot import fields as _fields
+        self.N = MessageType("N", _fields(n=int), "typed message whose field has the library's own serializer")
 
     # -- projection of real objects to the specification's vocabulary
     def utoken(self, u):
@@ -179,6 +217,11 @@ class Env:
                         why = "serialized_twice"
                     elif not _same(v, {"ser": VAL[n]}):
                         why = "serialized_value"
+                elif n == "hv":
+                    pass
+                elif n == "n":
+                    if v != 3:
+                        why = "field_value"
                 elif n in VAL:
                     if not _same(v, VAL[n]):
                         why = "field_value"
@@ -207,11 +250,13 @@ class Env:
             n = env.dcount.get(d, 0)
             env.dcount[d] = n + 1
             mask = env.dmask.get(d, [])
-            fail = bool(mask[n]) if n < len(mask) else False
+            fail = mask[n] if n < len(mask) else 0
             proj = env.project(message) if env.recording else None
-            raised = fail
+            raised = bool(fail)
             err = None
-            if fail:
+            if fail == 2:
+                err = env.abort_exc = [KeyboardInterrupt, SystemExit, GeneratorExit][(env.wit + n) % 3]()
+            elif fail:
                 err = DEST_ERRS[(env.wit + n) % len(DEST_ERRS)]()
             elif real is not None:
                 try:
@@ -219,7 +264,7 @@ class Env:
                 except Exception as e:          # genuine JSON failure: a destination failure like any other
                     raised, err = True, e
             if env.recording:
-                env.ev.append({"e": "deliver", "d": d, "raised": raised, "m": proj})
+                env.ev.append({"e": "deliver", "d": d, "raised": raised, "abort": fail == 2, "m": proj})
                 env.offered[d].append((dict(message), raised))
             if err is not None:
                 raise err
@@ -237,12 +282,20 @@ class Env:
             raise SerErr("serializer %d fails" % n)
         return {"ser": v}
 
+    def collide(self):
+        """Occasionally the application uses field names Eliot reserves; Eliot's own values must win."""
+        self.wit += 1
+        if self.prog.get("collide") and self.wit % 3 == 0:
+            k = sorted(RESERVED_COLLISIONS)[self.wit % len(RESERVED_COLLISIONS)]
+            return {k: RESERVED_COLLISIONS[k]}
+        return {}
+
     def make_exc(self, o):
         self.wit += 1
         if o == "exc":
             return EXC_WITNESSES[self.wit % len(EXC_WITNESSES)]()
-        if o == "ext":
-            return EXT_WITNESSES[self.wit % len(EXT_WITNESSES)]()
+        if o in ("x0", "x1", "x2"):
+            return {"x0": self.E0, "x1": self.E1, "x2": self.E2}[o]("instance of " + o)
         if o == "extraise":
             return ExtRaise("extractor will fail")
         raise HarnessError("unknown outcome %r" % (o,))
@@ -286,7 +339,8 @@ class Runner:
         except _Abort:
             pass
         except BaseException as e:
-            self.env.error = "".join(traceback.format_exception(type(e), e, e.__traceback__))
+            if self.env.recording and not self.env.abort:     # while unwinding after the end, anything may happen
+                self.env.error = "".join(traceback.format_exception(type(e), e, e.__traceback__))
         finally:
             self.env.done.put(("exit", self.c))
 
@@ -300,6 +354,10 @@ class Runner:
             self.env.ev.append(e)
 
     def finish_op(self, v):
+        if v == "raised":
+            # the specification never predicts this: the trace is rejected at this event; stop the program here, the
+            # objects later calls would need may not exist
+            self.env.abort = True
         if self.env.recording:
             self.env.ev.append({"e": "ret", "c": self.c, "v": v, "cur": self.env.act_index(current_action())})
         self.env.done.put(("op", self.c))
@@ -314,6 +372,12 @@ class Runner:
     def run_block(self):
         while True:
             op = self.next_op()
+            if "a" in op and (op["a"] > len(self.env.acts) or self.env.acts[op["a"] - 1] is None):
+                # the call that should have returned this action was aborted by a non-Exception from a destination:
+                # the program holds no such object; it ends here
+                self.env.abort = True
+                self.env.done.put(("op", self.c))
+                raise _Abort()
             if op["op"] == "Exit":
                 return op
             if op["op"] == "Enter":
@@ -365,11 +429,12 @@ class Runner:
         except BaseException as e:
             if not st["entered"]:
                 self.finish_op("raised")
-                # the block never opened: swallow the matching Exit
-                raise HarnessError("entering block raised: %r" % (e,))
+                raise _Abort()
+            if not st["exiting"] and e is env.abort_exc:
+                raise HarnessError("abort escaped from a block body")
             if not st["exiting"]:
                 raise
-            self.finish_op("app" if e is st["exc"] else "raised")
+            self.finish_op("app" if e is st["exc"] else ("abort" if e is env.abort_exc else "raised"))
         else:
             self.finish_op("wrongret" if st.get("wrongret") else "ok")
 
@@ -384,7 +449,7 @@ class Runner:
                 if op["ty"] == "T":
                     a = env.T(x=VAL["x"])
                 else:
-                    a = start_action(action_type=op["ty"], sa=VAL["sa"])
+                    a = start_action(action_type=op["ty"], sa=VAL["sa"], **env.collide())
                 env.acts.append(a)
             elif name == "StartTask":
                 if op["ty"] == "T":
@@ -400,16 +465,23 @@ class Runner:
             elif name == "Log":
                 if op["ty"] == "M":
                     env.M.log(x=VAL["x"])
+                elif op["ty"] == "N":
+                    env.N.log(n=3)
+                elif op["ty"] == "N0":
+                    env.N.log()
+                elif op["ty"] == "h":
+                    env.hostile_n += 1
+                    log_message(message_type="h", hv=HOSTILE[env.hostile_n % len(HOSTILE)]())
                 else:
-                    log_message(message_type=op["ty"], mf=VAL["mf"])
+                    log_message(message_type=op["ty"], mf=VAL["mf"], **env.collide())
             elif name == "ActionLog":
-                env.acts[op["a"] - 1].log(message_type=op["ty"], mf=VAL["mf"])
+                env.acts[op["a"] - 1].log(message_type=op["ty"], mf=VAL["mf"], **env.collide())
             elif name == "AddSuccess":
                 env.acts[op["a"] - 1].add_success_fields(**{op["f"]: VAL[op["f"]]})
             elif name == "WriteTraceback":
                 try:
-                    raise RuntimeError("unexpected")
-                except RuntimeError:
+                    raise (RuntimeError("unexpected") if op.get("o", "exc") == "exc" else env.make_exc(op["o"]))
+                except Exception:
                     write_traceback()
             elif name == "SerializeId":
                 tid = current_action().serialize_task_id()
@@ -429,14 +501,24 @@ class Runner:
                 env.D.add(*[env.dest[d] for d in sorted(op["S"])])
             elif name == "RemoveDest":
                 env.D.remove(env.dest[op["d"]])
+            elif name == "Register":
+                k = op["k"]
+                cls = {"E0": env.E0, "E1": env.E1, "E2": env.E2}[k]
+                fld = k.lower()
+                # extractors may well return names Eliot itself uses; the framework's own values win
+                register_exception_extractor(cls, lambda e, fld=fld: {fld: VAL[fld], "reason": "from the extractor"})
             elif name == "AddGlobal":
                 env.D.addGlobalFields(**{op["f"]: GLOBALS[op["f"]]})
             else:
                 raise HarnessError("unknown op %r" % (name,))
         except (_Abort, HarnessError):
             raise
-        except BaseException:
-            v = "raised"
+        except BaseException as e:
+            v = "abort" if e is env.abort_exc else "raised"
+            if v == "abort" and name in ("StartAction", "StartTask", "ContinueTask"):
+                env.acts.append(None)
+            if v == "abort" and name == "SerializeId":
+                env.abort = True
         self.finish_op(v)
 
 
@@ -464,6 +546,8 @@ def forest_of(env):
         filewhy = filewhy or "line_count"
     else:
         for dmsg, (omsg, _) in zip(decoded, offered):
+            if "hv" in omsg:
+                continue                    # hostile values: their encoding is C10's subject (json.tla), not this engine's
             if not _same(dmsg, omsg):
                 filewhy = filewhy or "line_differs_from_message"
                 break
@@ -484,15 +568,23 @@ def forest_of(env):
         return ["msg", node.contents.get("message_type", "?"), "", []]
 
     roots = {}
-    for t in tasks:
-        r = t.root()
-        if r.task_uuid in roots:
-            return None, filewhy, "duplicate_task"
-        roots[r.task_uuid] = proj(r)
+    try:
+        for t in tasks:
+            r = t.root()
+            if r.task_uuid in roots:
+                return None, filewhy, "duplicate_task"
+            roots[r.task_uuid] = proj(r)
+    except Exception as e:
+        return None, filewhy, "root_" + type(e).__name__
     return [roots[u] for u in order if u in roots], filewhy, ""
 
 
-def execute(prog):
+def execute_env(prog):
+    """Run a program and return the Env (for callers that need the delivered message dicts)."""
+    return execute(prog, want_env=True)
+
+
+def execute(prog, want_env=False):
     env = Env(prog)
     Logger._destinations = env.D
     init = prog.get("init", [])
@@ -512,6 +604,8 @@ def execute(prog):
         except queue.Empty:
             env.error = "timeout waiting for %r" % (op,)
             break
+        if env.abort:
+            break
         if what == "exit" or env.error:
             env.error = env.error or "context %d ended early" % c
             break
@@ -522,6 +616,8 @@ def execute(prog):
     for r in env.runners.values():
         if r.thread is not None:
             r.thread.join(timeout=10)
+    if want_env:
+        return env
     parsed, filewhy, perr = forest_of(env)
     return {"init": init, "ev": env.ev, "has_parsed": parsed is not None, "parsed": parsed or [], "file": filewhy,
             "parse_error": perr, "error": env.error or ""}
